@@ -32,7 +32,7 @@ ASSUMPTIONS = [
     "64-bit blake2b digests: an accidental collision among <= 1e6 nodes has probability < 1e-7, so a collision with different reference pre-images is reported",
     "floats 0.0/-0.0/NaN, user objects with custom __str__ and same-named Enum classes are outside the generator (don't-care)",
 ]
-MUST_SEE = ["payload_legs", "failed_constructions", 
+MUST_SEE = ["single_member_frozensets", "payload_legs", "failed_constructions", 
     "equal_key_pairs", "near_miss_same_class", "cross_process_keys", "separator_strings", "falsy_children", "tuple_perm",
     "class_swap", "lifetime_rechecks", "rebuild_legs", "is_equal_true", "is_equal_false", "same_named_class_probe",
 ]
@@ -277,6 +277,13 @@ def run_shard(ctx):
         r = build(U, sp)
         keep.append(r)
         pool.add_tree(sp, r)
+    # one-element frozensets (no iteration order to speak of) whose members / builtin hashes are look-alikes
+    for val in (frozenset([-1]), frozenset([-2]), frozenset([0]), frozenset([2**61 - 1]), frozenset(["-1"]), frozenset([True]), frozenset([1]), frozenset([1.0]), frozenset()):
+        sp = S(f"{P}Mix", {"fs": val})
+        r = build(U, sp)
+        keep.append(r)
+        pool.add_tree(sp, r)
+        ctx.count("single_member_frozensets")
     # the same class *name* defined twice in one module (redefinition while old instances survive):
     # two different classes -> is_equal must be False; their digests coincide because the digest
     # identifies the class by its name only (recorded mechanism 'same-named-classes')
